@@ -6,10 +6,103 @@
 
 package plugin
 
+//@ ghost launched: map[Int]Int
+//@ ghost sc_checks: Int
+
+//@ pred dialable(a) := a != nil && (typeis(a, "*net.TCPAddr") ==> unbox(a, "*net.TCPAddr") != nil) && (typeis(a, "*net.UnixAddr") ==> unbox(a, "*net.UnixAddr") != nil)
+//@ pred valid_client(c) := c.config != nil && c.logger != nil && c.config.Stderr != nil && c.config.SyncStdout != nil && c.config.SyncStderr != nil && c.config.PluginLogBufferSize >= 1 && c.config.AllowedProtocols != nil
+//@ pred valid_reattach(c) := c.config.Reattach != nil ==> dialable(c.config.Reattach.Addr)
+//@ pred inv_client(c) := (c.address != nil ==> dialable(c.address)) && launched[c] >= 0 && launched[c] <= 1 && (launched[c] == 1 && c.config.Cmd != nil ==> c.config.Cmd.Stdout != nil)
+
 //@ func (*SecureConfig).Check
 //@   nopanic [C13.total]
+//@   modifies hdata, open_files
 //@   ensures len(s.Checksum) == 0 ==> result0 == false && result1 == ErrSecureConfigNoChecksum   [C13.err]
 //@   ensures len(s.Checksum) != 0 && s.Hash == nil ==> result0 == false && result1 == ErrSecureConfigNoHash   [C13.err]
 //@   ensures result1 != nil ==> result0 == false   [C13.err]
 //@   ensures result1 == nil ==> (result0 <==> digest(cat_data(old(hdata)[s.Hash], filebytes(filePath)), "") == str(s.Checksum))   [C13.iff]
 //@   ensures open_files == old(open_files)   [C13.close]
+
+//@ func (*Client).checkProtoVersion
+//@   nopanic [C01.d]
+//@   requires c.config != nil
+//@   modifies nothing
+//@   after call strconv.Atoi#1 bind sv: Int := ret0
+//@   loop#1 invariant 0 <= rpos1 && rpos1 <= rn1 && rdom1 == domain(c.config.VersionedPlugins) && rvals1 == values(c.config.VersionedPlugins)
+//@   loop#1 invariant forall j :: 0 <= j && j < rpos1 ==> rkeys1[j] != sv
+//@   loop#1 invariant cap(clientVersions) == 0 || fresh(clientVersions)
+//@   loop#1 frame fresh_only
+//@   ensures (result2 == nil) <==> (atoi_ok(protoVersion) && atoi_val(protoVersion) in c.config.VersionedPlugins)   [C01.ver] [C02.client]
+//@   ensures result2 == nil ==> result0 == atoi_val(protoVersion) && result1 == c.config.VersionedPlugins[result0]   [C01.ver] [C02.client]
+
+//@ func setGroupWritable
+//@   nopanic [C01.d] [C16.total]
+//@   modifies nothing
+
+//@ func generateCert
+//@   trusted
+//@   modifies nothing
+
+//@ pred P(line, i) := split_arr(trim(line), "|")[i]
+//@ pred N(line) := split_n(trim(line), "|")
+//@ pred proto_of(line) := ite(N(line) >= 5, P(line, 4), "netrpc")
+//@ pred hn(r, line) := p2h_net(r, P(line, 2), P(line, 3))
+//@ pred ha(r, line) := p2h_addr(r, P(line, 2), P(line, 3))
+//@ pred hs_addr_ok(r, line) := p2h_err(r, P(line, 2), P(line, 3)) == nil && ((hn(r, line) == "tcp" && tcp_err(ha(r, line)) == nil) || (hn(r, line) == "unix" && unix_err(ha(r, line)) == nil))
+//@ pred hs_cert_ok(c, line) := N(line) >= 6 && len(P(line, 5)) > 50 ==> b64_ok(P(line, 5)) && x509_ok(b64_val(P(line, 5))) && c.config.TLSConfig != nil
+//@ pred hs_mux_ok(c, line) := c.config.GRPCBrokerMultiplex && proto_of(line) == "grpc" ==> N(line) >= 7 && pbool_ok(P(line, 6)) && pbool_val(P(line, 6))
+//@ pred hs_ok6(c, r, line) := N(line) >= 4 && atoi_ok(P(line, 0)) && atoi_val(P(line, 0)) == 1 && atoi_ok(P(line, 1)) && atoi_val(P(line, 1)) in c.config.VersionedPlugins && hs_addr_ok(r, line) && (exists j :: 0 <= j && j < len(c.config.AllowedProtocols) && c.config.AllowedProtocols[j] == proto_of(line)) && hs_cert_ok(c, line)
+//@ pred nn(x) := ite(x != nil, 1, 0)
+
+//@ func (*Client).Start
+//@   nopanic [C01.d] [C03.d]
+//@   bounded always [C01.e]
+//@   requires valid_client(c) && valid_reattach(c) && inv_client(c)
+//@   requires !held(c.l)
+//@   modifies heap, launches, kills, rf_calls, launched, cancelled, wg_count, hdata, open_files, sc_checks, sel_reached
+//@   local sel_reached: Bool := false
+//@   loop#2 invariant forall j :: 0 <= j && j <= rangeindex ==> c.config.AllowedProtocols[j] != c.protocol
+//@   entry a0 := c.address
+//@   after select#1 bind line: Str := recv2
+//@   after select#1 bind sel: Int := index
+//@   after select#1 bind lineok: Bool := recvok
+//@   after select#1 set sel_reached := true
+//@   at call (runner.Runner).Start#1 bind the_runner: Iface := recv
+//@   after call (runner.Runner).Start#1 set launched := ite(ret == nil, launched[c := launched[c] + 1], launched)
+//@   after call (*SecureConfig).Check#1 set sc_checks := sc_checks + 1
+//@   after call (*SecureConfig).Check#1 bind chk_ok: Bool := ret0
+//@   after call (*SecureConfig).Check#1 bind chk_err: Iface := ret1
+//@   at call (*SecureConfig).Check#1 bind chk_path: Str := arg0
+//@   at call (*SecureConfig).Check#1 assert launches == old(launches) && rf_calls == old(rf_calls)   [C13.order]
+//@   at call cmdrunner.NewCmdRunner#1 assert c.config.SecureConfig != nil ==> sc_checks == old(sc_checks) + 1 && chk_ok && chk_err == nil && chk_path == cmd.Path   [C13.order]
+//@   at call (ClientConfig).RunnerFunc#1 assert c.config.SecureConfig != nil ==> sc_checks == old(sc_checks) + 1 && chk_ok && chk_err == nil && chk_path == arg1.Path   [C13.order]
+//@   at call (runner.Runner).Start#1 assert c.config.SecureConfig != nil ==> sc_checks == old(sc_checks) + 1 && chk_ok && chk_err == nil   [C13.order]
+//@   at call (runner.Runner).Start#1 assert c.runner == recv   [C05.b]
+//@   at call cmdrunner.NewCmdRunner#1 assert cmd.Stdin == iface(pkg("os").Stdin)   [C17.stdin]
+//@   at call (ClientConfig).RunnerFunc#1 assert arg1.Stdin == iface(pkg("os").Stdin)   [C17.stdin]
+//@   ensures !held(c.l)   [C19.lock]
+//@   ensures err != nil || dialable(addr)   [C01.a]
+//@   ensures inv_client(c)   [C19.once]
+//@   ensures a0 != nil ==> addr == a0 && err == nil && launches == old(launches) && rf_calls == old(rf_calls) && c.runner == old(c.runner) && c.client == old(c.client) && c.address == a0   [C19.addr]
+//@   ensures err == nil ==> c.address == addr && addr != nil   [C19.addr]
+//@   ensures err != nil && a0 == nil && c.config.Reattach == nil ==> c.address == nil   [C19.stable]
+//@   ensures a0 == nil && c.config.Reattach == nil && err == nil ==> sel_reached && sel == 2 && N(line) >= 4   [C01.b-fields]
+//@   ensures a0 == nil && c.config.Reattach == nil && err == nil ==> atoi_ok(P(line, 0)) && atoi_val(P(line, 0)) == 1   [C01.b-core]
+//@   ensures a0 == nil && c.config.Reattach == nil && err == nil ==> atoi_ok(P(line, 1)) && atoi_val(P(line, 1)) in c.config.VersionedPlugins   [C01.b-app]
+//@   ensures a0 == nil && c.config.Reattach == nil && err == nil ==> hs_addr_ok(the_runner, line)   [C01.b-addr]
+//@   ensures a0 == nil && c.config.Reattach == nil && err == nil ==> exists j :: 0 <= j && j < len(c.config.AllowedProtocols) && c.config.AllowedProtocols[j] == proto_of(line)   [C01.b-proto]
+//@   ensures a0 == nil && c.config.Reattach == nil && err == nil ==> hs_cert_ok(c, line)   [C01.b-cert]
+//@   ensures a0 == nil && c.config.Reattach == nil && err == nil ==> hs_mux_ok(c, line)   [C01.b-mux]
+//@   ensures a0 == nil && c.config.Reattach == nil && err == nil ==> c.protocol == proto_of(line) && c.negotiatedVersion == atoi_val(P(line, 1)) && c.config.Plugins == c.config.VersionedPlugins[atoi_val(P(line, 1))]   [C01.c]
+//@   ensures a0 == nil && c.config.Reattach == nil && err == nil && hn(the_runner, line) == "tcp" ==> addr == iface(cast(tcp_addr(ha(the_runner, line)), "*net.TCPAddr"))   [C01.c]
+//@   ensures a0 == nil && c.config.Reattach == nil && err == nil && hn(the_runner, line) == "unix" ==> addr == iface(cast(unix_addr(ha(the_runner, line)), "*net.UnixAddr"))   [C01.c]
+//@   ensures sel_reached && (sel == 0 || sel == 1 || !lineok) ==> err != nil   [C03.b]
+//@   ensures launches <= old(launches) + 1   [C05.count]
+//@   ensures launches == old(launches) + 1 && err != nil ==> kills[the_runner] >= old(kills)[the_runner] + 1   [C05.a]
+//@   ensures launches == old(launches) + 1 ==> c.runner == the_runner   [C05.b]
+//@   ensures a0 == nil && c.config.SecureConfig != nil && c.config.Reattach == nil && (launches != old(launches) || rf_calls != old(rf_calls)) ==> sc_checks == old(sc_checks) + 1 && chk_ok && chk_err == nil   [C13.order]
+//@   ensures a0 == nil && c.config.SecureConfig != nil && c.config.Reattach == nil && sc_checks == old(sc_checks) + 1 && chk_err == nil && !chk_ok ==> err == ErrChecksumsDoNotMatch   [C13.order]
+//@   ensures a0 == nil && nn(c.config.Cmd) + nn(c.config.Reattach) + nn(c.config.RunnerFunc) != 1 ==> err != nil && launches == old(launches) && rf_calls == old(rf_calls)   [C14.excl]
+//@   ensures a0 == nil && c.config.SecureConfig != nil && c.config.Reattach != nil && nn(c.config.Cmd) + nn(c.config.RunnerFunc) == 0 ==> err == ErrSecureConfigAndReattach   [C14.excl]
+//@   ensures a0 == nil && c.config.GRPCBrokerMultiplex && c.config.Reattach != nil ==> err != nil && launches == old(launches)   [C14.excl]
+//@   ensures a0 == nil && c.config.Reattach == nil && sel_reached && sel == 2 && hs_ok6(c, the_runner, line) && c.config.GRPCBrokerMultiplex && proto_of(line) == "grpc" && (N(line) <= 6 || (pbool_ok(P(line, 6)) && !pbool_val(P(line, 6)))) ==> err == ErrGRPCBrokerMuxNotSupported || wraps(err, ErrGRPCBrokerMuxNotSupported)   [C14.mux]
